@@ -66,6 +66,13 @@ void mon_c11(CaseCtx &c, Rng &rng){
         std::string df = obs_diff_state(expect, ro);
         if (!df.empty()){ c.viol("subrange:" + df + ":" + cls, J().str("field", df).i("begin", b).i("end", e).i("outputs", m).obj()); return; }
         c.count("subranges_compared");
+        {   // the restricted copy must also survive a write/read round trip as the grid it is (C06 oracle on the copy)
+            std::ostringstream os(std::ios::out | std::ios::binary); R.write(os, true);
+            TasmanianSparseGrid RR; std::istringstream is(os.str(), std::ios::in | std::ios::binary);
+            try{ RR.read(is, true); }catch(std::exception &ex){ c.viol("subrange:copy-cannot-be-read-back:" + cls, J().str("what", ex.what()).obj()); return; }
+            std::string df3 = obs_diff_state(ro, observe(RR, oo));
+            if (!df3.empty()){ c.viol("subrange:copy-changes-in-write-read:" + df3 + ":" + cls, J().str("field", df3).i("begin", b).i("end", e).obj()); return; }
+        }
         // one lock-step data delivery restricted to the range
         try{
             std::vector<double> x;
